@@ -56,6 +56,12 @@ BoolBad  == <<"maybe", "\\n", "2">>
 StrOk    == <<"abc", "a b", "#tag", "\\n", "x,y", "q\"t", "s;t", "p|q", "tab\tx", "two\nlines", "it's", " lead">>
 StrPlain == <<"abc", "def", "#tag", "xyz">>                                                  \* need no quoting under any separator
 
+\* texts that differ in the case of their letters only: three different values
+CaseTwins == <<"McDonald", "MCDONALD", "Mcdonald", "mcdonald">>
+\* a text of 401 characters (written by the harness as 401 times x): no row can hold it, the engine refuses the record's
+\* INSERT (rows are limited to 400 bytes) - an error of that one record like any other
+BigText == "@x401"
+
 Is32(txt) == InSeq(txt, IntOk)
 Is64(txt) == InSeq(txt, IntOk) \/ InSeq(txt, BigOk) \/ txt \in {"-2147483649"}
 BoolOf(txt) == IF txt \in {"true", "1"} THEN "true" ELSE "false"
@@ -65,7 +71,7 @@ Conv(ty, txt) ==
   ELSE CASE ty = "int"     -> IF Is32(txt) THEN [t |-> "i", v |-> Canon(txt)] ELSE Reject
          [] ty = "bigint"  -> IF Is64(txt) THEN [t |-> "I", v |-> Canon(txt)] ELSE Reject
          [] ty = "boolean" -> IF InSeq(txt, BoolOk) THEN [t |-> "b", v |-> BoolOf(txt)] ELSE Reject
-         [] ty = "varchar" -> [t |-> "s", v |-> txt]
+         [] ty = "varchar" -> IF txt = BigText THEN Reject ELSE [t |-> "s", v |-> txt]
 
 -----------------------------------------------------------------------------
 (* The meaning of one record: rec = [flds |-> field texts, malformed |-> BOOLEAN]  *)
@@ -151,6 +157,8 @@ Build(r, p) ==
     [] r.cls = "range"     -> [flds |-> SetFld(Base(p, FALSE), r.at, Pick(IntRange, p + r.var)), malformed |-> FALSE]
     [] r.cls = "extra"     -> [flds |-> Base(p, FALSE) \o [k \in 1..r.var |-> "more"], malformed |-> FALSE]
     [] r.cls = "empty"     -> [flds |-> SetFld(Base(p, FALSE), r.at, ""), malformed |-> FALSE]
+    [] r.cls = "casetwin"  -> [flds |-> SetFld(Base(p, FALSE), r.at, Pick(CaseTwins, p + r.var)), malformed |-> FALSE]
+    [] r.cls = "toobig"    -> [flds |-> SetFld(Base(p, FALSE), r.at, BigText), malformed |-> FALSE]
 
 \* positions a class is instantiated at: all of them (Wide) or the first one per column type
 FirstOfType(i) == \A j \in M : (j < i) => TypeAt(j) # TypeAt(i)
@@ -167,9 +175,11 @@ AllClasses ==
   \cup {Rec("range", i, v) : i \in At({i \in M : TypeAt(i) = "int"}), v \in (IF Wide THEN 0..3 ELSE {0, 3})}
   \cup {Rec("extra", 0, v) : v \in (IF Wide THEN 1..2 ELSE {1})}
   \cup {Rec("empty", i, 0) : i \in At(M)}
+  \cup {Rec("casetwin", i, 0) : i \in At({i \in M : TypeAt(i) = "varchar"})}
+  \cup {Rec("toobig", i, 0) : i \in At({i \in M : TypeAt(i) = "varchar"})}
 
 Classes == {r \in AllClasses : r.cls \in Only}
-ClassNames == {"valid", "null", "allnull", "malformed", "short", "badnum", "range", "extra", "empty"}
+ClassNames == {"valid", "null", "allnull", "malformed", "short", "badnum", "range", "extra", "empty", "casetwin", "toobig"}
 
 CsvNext == \E r \in Classes : Record(Build(r, pos + 1))
 =============================================================================
